@@ -1,2 +1,157 @@
+"""C18 clauses 3-5: size grammar, print <= parse, padding shorthand."""
+import ast
+import re
+
+from ..core.tree import AnalysisError
+from ..core.constfold import Folder, EnumClass
+from ..core.astutil import walk_no_nested, call_name, short, src
+from ..engines import regexlang as R
+from ..engines.regexuse import regex_uses
+from ..spec import geometry_spec as G
+
+GEOM = "pycaption/geometry.py"
+
+
 def run(ctx, report):
-    report.notes.append("clauses 3-5 pending regexlang engine")
+    folder = ctx.memo("folder", lambda: Folder(ctx.index))
+    idx = ctx.index
+    # clause 3 ------------------------------------------------------------
+    units = folder.value("pycaption.geometry", "UnitEnum")
+    if not isinstance(units, EnumClass):
+        raise AnalysisError("UnitEnum does not fold to an Enum class")
+    got_units = sorted(m.value for m in units.members)
+    report.check(got_units == sorted(G.UNITS), "R-TABLE-REF", (GEOM, "UnitEnum"), "UnitEnum values",
+                 {"found": got_units, "required": sorted(G.UNITS)}, "3")
+    fn = idx.get_function(GEOM, "Size.from_string")
+    report.covered(fn)
+    uses = [u for u in regex_uses(fn, folder) if u.method in ("search", "match", "fullmatch")]
+    if len(uses) != 1:
+        raise AnalysisError(f"Size.from_string: expected exactly one regex application, found {len(uses)}")
+    use = uses[0]
+    alpha = R.Alphabet(G.SIZE_ALPHABET)
+    lang = R.lang_of_pattern(use.pattern, alpha, use.mode, use.flags, name="Size.from_string")
+    ref = R.Lang(G.size_language(), alpha, "full", name="reference size language")
+    w = R.equal_witness(lang, ref)
+    report.check(w is None, "R-LANG-EQ", (fn, use.node), "size pattern == reference size language",
+                 {"pattern": use.pattern, "applied_with": use.method,
+                  "alphabet": "printable ASCII (the property quantifies over digits, '.', sign, exponent, "
+                              "unit characters, '%' and space)",
+                  "dfa_states": R.dfa_size(lang),
+                  **({"difference": w[0], "shortest_witness": w[1]} if w else {})}, "3")
+    # the unit group and the value group mean what the constructor call assumes
+    grp = getattr(lang, "groups", {})
+    if "value" in grp and "unit" in grp:
+        gv = R.Lang(grp["value"], alpha, "full")
+        gu = R.Lang(grp["unit"], alpha, "full")
+        wv = R.equal_witness(gv, R.Lang(G.number_language(), alpha, "full"))
+        wu = R.equal_witness(gu, R.Lang(R.alt(*[R.lit(u) for u in G.UNITS]), alpha, "full"))
+        report.check(wv is None, "R-GROUP-ROLE", (fn, use.node), "group 'value' is a non-negative decimal",
+                     {"witness": wv} if wv else None, "3")
+        report.check(wu is None, "R-GROUP-ROLE", (fn, use.node), "group 'unit' is exactly the unit set",
+                     {"witness": wu} if wu else None, "3")
+    else:
+        raise AnalysisError("Size.from_string: named groups 'value'/'unit' not found")
+    # the failure branch raises the syntax error
+    raises = [n for n in walk_no_nested(fn.node) if isinstance(n, ast.Raise)]
+    ok = any(isinstance(r.exc, ast.Call) and call_name(r.exc) == "CaptionReadSyntaxError" for r in raises)
+    guarded = False
+    for n in walk_no_nested(fn.node):
+        if isinstance(n, ast.If) and isinstance(n.test, ast.UnaryOp) and isinstance(n.test.op, ast.Not) \
+                and any(isinstance(s, ast.Raise) for s in n.body):
+            guarded = True
+    report.check(ok and guarded, "R-MUSTRAISE", fn, "no match -> raise CaptionReadSyntaxError",
+                 None if ok and guarded else "raise of CaptionReadSyntaxError under `if not match` not found", "3")
+
+    # clause 4 ------------------------------------------------------------
+    sfn = idx.get_function(GEOM, "Size.__str__")
+    report.covered(sfn)
+    rounds = []
+    fspecs = []
+    for n in walk_no_nested(sfn.node):
+        if isinstance(n, ast.Call) and call_name(n) == "round":
+            nd = n.args[1] if len(n.args) > 1 else None
+            rounds.append(nd.value if isinstance(nd, ast.Constant) else (0 if nd is None else "?"))
+        if isinstance(n, ast.FormattedValue) and n.format_spec is not None:
+            spec = "".join(v.value for v in n.format_spec.values if isinstance(v, ast.Constant))
+            fspecs.append(spec)
+        if isinstance(n, ast.Call) and call_name(n) == "format" and len(n.args) == 2 \
+                and isinstance(n.args[1], ast.Constant):
+            fspecs.append(n.args[1].value)
+    float_specs = [s for s in fspecs if s.endswith("f")]
+    report.check(rounds == [2], "R-PRINT", sfn, "value rounded to two decimals before printing",
+                 {"round_digits_found": rounds, "required": [2]}, "4")
+    decs = []
+    for s in float_specs:
+        m = re.fullmatch(r"\.(\d+)f", s)
+        decs.append(int(m.group(1)) if m else "?")
+    report.check(decs == [2], "R-PRINT", sfn, "fractional values printed with two decimals",
+                 {"format_specs_found": fspecs, "required": [".2f"]}, "4")
+    # the unit is printed from the enum value, after the number
+    ret = [n for n in walk_no_nested(sfn.node) if isinstance(n, ast.Return)]
+    unit_last = False
+    for r in ret:
+        if isinstance(r.value, ast.JoinedStr) and r.value.values:
+            last = r.value.values[-1]
+            if isinstance(last, ast.FormattedValue) and src(last.value).endswith("unit.value"):
+                unit_last = True
+    report.check(unit_last, "R-PRINT", sfn, "printed form is <number><unit.value>", None if unit_last else
+                 [src(r) for r in ret], "4")
+    if decs == [2] and unit_last:
+        printed = R.Lang(G.printed_size_language(2), alpha, "full", name="printed sizes (non-negative)")
+        w = R.difference_witness(printed, lang)
+        report.check(w is None, "R-LANG-INCL", sfn, "language printed by Size.__str__ <= language parsed",
+                     {"shortest_unparseable_print": w} if w is not None else
+                     {"printed": "digits+ ('.' digit{1,2})? unit"}, "4")
+
+    # clause 5 ------------------------------------------------------------
+    pfn = idx.get_function(GEOM, "Padding.from_xml_attribute")
+    report.covered(pfn)
+    pinit = idx.get_function(GEOM, "Padding.__init__")
+    order = pinit.params[1:]
+    found = {}
+    for n in walk_no_nested(pfn.node):
+        if isinstance(n, ast.If):
+            k = _len_eq_const(n.test)
+            if k is None:
+                continue
+            for st in n.body:
+                if isinstance(st, ast.Return) and isinstance(st.value, ast.Call) \
+                        and call_name(st.value) in ("cls", "Padding"):
+                    call = st.value
+                    m = {}
+                    for i, a in enumerate(call.args):
+                        if i < len(order):
+                            m[order[i]] = _const_index(a)
+                    for kw in call.keywords:
+                        m[kw.arg] = _const_index(kw.value)
+                    found[k] = m
+    for k, want in G.PADDING_SHORTHAND.items():
+        got = found.get(k)
+        report.check(got == want, "R-TABLE-REF", pfn, f"padding shorthand with {k} value(s)",
+                     {"found": got, "required (TTML: before end after start)": want}, "5")
+    # anything else raises
+    has_else_raise = any(isinstance(n, ast.Raise) for n in walk_no_nested(pfn.node))
+    report.check(has_else_raise, "R-MUSTRAISE", pfn, "other arities are refused", None, "5")
+    tfn = idx.get_function(GEOM, "Padding.to_xml_attribute")
+    a = tfn.node.args
+    pos = a.posonlyargs + a.args
+    defaults = dict(zip([p.arg for p in pos[len(pos) - len(a.defaults):]], a.defaults))
+    d = defaults.get("attribute_order")
+    got = list(ast.literal_eval(d)) if d is not None else None
+    report.check(got == list(G.PADDING_ATTRIBUTE_ORDER), "R-TABLE-REF", tfn,
+                 "padding written in TTML order", {"found": got, "required": list(G.PADDING_ATTRIBUTE_ORDER)}, "5")
+    report.assume("re._parser of the running interpreter is the parser that interprets the pattern at run time")
+
+
+def _len_eq_const(test):
+    if isinstance(test, ast.Compare) and len(test.ops) == 1 and isinstance(test.ops[0], ast.Eq) \
+            and isinstance(test.left, ast.Call) and call_name(test.left) == "len" \
+            and isinstance(test.comparators[0], ast.Constant):
+        return test.comparators[0].value
+    return None
+
+
+def _const_index(expr):
+    if isinstance(expr, ast.Subscript) and isinstance(expr.slice, ast.Constant):
+        return expr.slice.value
+    return src(expr)
